@@ -149,7 +149,7 @@ impl Prop for C16 {
         "exploration"
     }
     fn rule(&self) -> String {
-        "run = the `mlar` binary built from the working tree, against a private scratch tree <scratch>/{sandbox/{canary files, sub/canary, out?}, outside-canary, archive.mla}. The archive is written by the library (prod build) with member names drawn from a path grammar: components '..', '.', empty, 200/255-byte, unicode, spaces, '-o', '*', in every position; prefixes '/', '//', './', '../', '../../../../../../../../'; trailing '/'. Command history (seeded): whole-archive extract, extract of one listed name, glob extract ('*' or a seeded pattern), repeated into the same output directory, output directory given relative (cwd = sandbox) or absolute, existing or not, and in eight forms (plain, trailing '/', '.' from inside it, './out', 'sub/../out', a symbolic link to it, a working directory reached through a symbolic link). One run in five starts with symbolic links already in the output directory (to a directory outside it, to a file outside it, to a directory inside it, to a sibling directory and a sibling file whose names begin with the output directory's name - out.bak/, out.log) and member names that go through them (`lnkdir/x`, `lnkdir/sub/deeper/x`, `lnkfile`, `inlink/../lnkfile`...); in those runs only files are compared. Oracle 1 (all runs): a recursive snapshot (path, type, size, SHA-256, mtime) of the whole scratch tree outside the output directory is unchanged after every command. Oracle 2 (runs whose member names are collision-free once normalised): exit status 0 and every member without a '..' component exists beneath the output directory at its normalised path with exactly its content; members with '..' produce no file anywhere. distinct_nontrivial = distinct (name shape classes, command kinds, relative/absolute, collision-free?) signatures.".into()
+        "run = the `mlar` binary built from the working tree, against a private scratch tree <scratch>/{sandbox/{canary files, sub/canary, out?}, outside-canary, archive.mla}. The archive is written by the library (prod build) with member names drawn from a path grammar: components '..', '.', empty, 200/255-byte, unicode, spaces, '-o', '*', in every position; prefixes '/', '//', './', '../', '../../../../../../../../'; trailing '/'. Command history (seeded): whole-archive extract, extract of one listed name, glob extract ('*' or a seeded pattern), repeated into the same output directory, output directory given relative (cwd = sandbox) or absolute, existing or not, and in eight forms (plain, trailing '/', '.' from inside it, './out', 'sub/../out', a symbolic link to it, a working directory reached through a symbolic link). One run in five starts with symbolic links already in the output directory (to a directory outside it, to a file outside it, to a directory inside it, to a sibling directory and a sibling file whose names begin with the output directory's name - out.bak/, out.log; dangling links, relative and absolute, whose target outside does not exist yet; a link loop) and member names that go through them (`lnkdir/x`, `lnkdir/sub/deeper/x`, `lnkfile`, `inlink/../lnkfile`...); in those runs only files are compared. Oracle 1 (all runs): a recursive snapshot (path, type, size, SHA-256, mtime) of the whole scratch tree outside the output directory is unchanged after every command. Oracle 2 (runs whose member names are collision-free once normalised): exit status 0 and every member without a '..' component exists beneath the output directory at its normalised path with exactly its content; members with '..' produce no file anywhere. distinct_nontrivial = distinct (name shape classes, command kinds, relative/absolute, collision-free?) signatures.".into()
     }
     fn assumptions(&self) -> Vec<String> {
         vec![
@@ -209,7 +209,7 @@ impl Prop for C16 {
         // outside it, to a directory inside it) and some member names go through them
         let symlinks = rng.chance(1, 5);
         if symlinks {
-            for (k, name) in ["lnkdir/x", "lnkdir/sub/deeper/x", "lnkdir/keep", "lnkfile", "inlink/y", "lnkdir/../lnkdir/z", "./lnkfile", "inlink/../lnkfile", "sibling/new", "sibling/keep", "sibling/sub/x", "siblog"].iter().enumerate() {
+            for (k, name) in ["lnkdir/x", "lnkdir/sub/deeper/x", "lnkdir/keep", "lnkfile", "inlink/y", "lnkdir/../lnkdir/z", "./lnkfile", "inlink/../lnkfile", "sibling/new", "sibling/keep", "sibling/sub/x", "siblog", "dangling", "inner/dangling2", "dangabs", "loopa", "dangdir/x"].iter().enumerate() {
                 if rng.chance(1, 2) && seen.insert((*name).to_string()) {
                     ops.push(WOp::Add { name: Name::lit(name), data: Data::Rand { n: rng.range(1, 300) as usize, seed: rng.u64() ^ (k as u64) << 8 }, src: Src::exact() });
                 }
@@ -269,6 +269,14 @@ impl Prop for C16 {
             std::fs::write(sandbox.join("out.log"), b"canary-6").unwrap();
             let _ = std::os::unix::fs::symlink("../out.bak", out_abs.join("sibling"));
             let _ = std::os::unix::fs::symlink("../out.log", out_abs.join("siblog"));
+            // ... DANGLING links (the target does not exist yet: creating the file through the link would create it
+            // outside), relative and absolute, at a member's own path and as a directory on its way, and a link LOOP
+            let _ = std::os::unix::fs::symlink("../victim.txt", out_abs.join("dangling"));
+            let _ = std::os::unix::fs::symlink("../../victim2.txt", out_abs.join("inner").join("dangling2"));
+            let _ = std::os::unix::fs::symlink(root.join("victim-abs.txt"), out_abs.join("dangabs"));
+            let _ = std::os::unix::fs::symlink("../no-such-dir", out_abs.join("dangdir"));
+            let _ = std::os::unix::fs::symlink("loopb", out_abs.join("loopa"));
+            let _ = std::os::unix::fs::symlink("loopa", out_abs.join("loopb"));
         }
         // with links in play only FILES are compared (the statement speaks of files; the tool may create an empty
         // directory before it notices that the path leaves the output directory)
